@@ -261,7 +261,7 @@ def run(ctx):
                 own.append(i)
             if c["list"]:
                 ctx.nontrivial(bytes(c["input"]))
-    reported = {json.dumps(v["case"]["input"]) + json.dumps(v.get("query")) for v in ctx.violations if v["kind"] == "random"}
+    reported = {json.dumps(v["case"]["input"]) + json.dumps(v.get("query")) for v in ctx.seen if v["kind"] == "random"}
     for bi in ctx.tlc_trace("config", "ConfigValues_Trace", evs):
         e = evs[bi]
         if json.dumps(e["input"]) + json.dumps(e["q"]) in reported:
